@@ -334,3 +334,110 @@ theorem rt_dets (s : Split) (bits : List Bool) (rest : List Nat) (hlen : bits.le
   rw [← hlen, bitsOfHits_hitIndices]
 
 end Stim.C09
+
+/-! ### ptb64: one group of 64 shots -/
+namespace Stim.C09
+open Stim Stim.Fmt
+
+theorem bitsN_getD : ∀ (k v r : Nat), r < k → (bitsN k v).getD r false = (v / 2^r % 2 == 1)
+  | 0, _, _, h => by omega
+  | k+1, v, 0, _ => by simp [bitsN]
+  | k+1, v, r+1, h => by
+    have := bitsN_getD k (v / 2) r (by omega)
+    simp only [bitsN, List.getD_cons_succ, this]
+    rw [Nat.pow_succ, Nat.div_div_eq_div_mul, Nat.mul_comm]
+
+theorem byte_bit (c : List Bool) (r : Nat) (hc : c.length ≤ 8) (hr : r < 8) :
+    (byteOfBits c / 2^r % 2 == 1) = c.getD r false := by
+  have h1 := bitsN_byteOfBits 8 c hc
+  have h2 := bitsN_getD 8 (byteOfBits c) r hr
+  rw [h1] at h2
+  rw [← h2]
+  by_cases hlt : r < c.length
+  · simp [List.getD, List.getElem?_append_left hlt]
+  · have hge : c.length ≤ r := by omega
+    simp only [List.getD]
+    rw [List.getElem?_append_right hge, List.getElem?_eq_none hge]
+    simp only [List.getElem?_replicate, Option.getD_none]
+    split <;> rfl
+
+theorem flatMap8_getD (f : Nat → List Nat) (hf : ∀ i, (f i).length = 8) :
+    ∀ (l : List Nat) (k j : Nat), k < l.length → j < 8 →
+      (l.flatMap f).getD (k * 8 + j) 0 = (f (l.getD k 0)).getD j 0
+  | [], k, _, h, _ => by simp at h
+  | x :: xs, 0, j, _, hj => by
+    simp only [List.flatMap_cons, Nat.zero_mul, Nat.zero_add, List.getD_cons_zero, List.getD]
+    rw [List.getElem?_append_left (by rw [hf]; exact hj)]
+    simp
+  | x :: xs, k+1, j, h, hj => by
+    have ih := flatMap8_getD f hf xs k j (by simpa using h) hj
+    simp only [List.flatMap_cons, List.getD_cons_succ]
+    simp only [List.getD] at ih ⊢
+    rw [List.getElem?_append_right (by rw [hf]; omega)]
+    have : (k + 1) * 8 + j - (f x).length = k * 8 + j := by rw [hf]; omega
+    rw [this]; exact ih
+
+theorem u64Bytes_length (b : List Bool) : (u64Bytes b).length = 8 := by simp [u64Bytes]
+
+theorem encPtb64Group_length (n : Nat) (group : List (List Bool)) : (encPtb64Group n group).length = n * 8 := by
+  unfold encPtb64Group
+  induction n with
+  | zero => simp
+  | succ k ih =>
+    rw [List.range_succ, List.flatMap_append, List.length_append, ih]
+    simp [u64Bytes_length]; omega
+
+/-- **ptb64: a group of 64 shots decodes to exactly the shots that were encoded**, for every record length `n > 0`. -/
+theorem rt_ptb64_group (n : Nat) (group : List (List Bool)) (rest : List Nat) (hn : 0 < n)
+    (h64 : group.length = 64) (hlen : ∀ s ∈ group, s.length = n) :
+    decPtb64Group n (encPtb64Group n group ++ rest) = .ok group rest := by
+  have hL := encPtb64Group_length n group
+  unfold decPtb64Group
+  have hne : ¬ ((encPtb64Group n group ++ rest).isEmpty || n * 8 == 0) = true := by
+    simp only [Bool.or_eq_true, List.isEmpty_iff, beq_iff_eq, not_or]
+    constructor
+    · intro h
+      have := congrArg List.length h
+      simp [hL] at this; omega
+    · omega
+  simp only [hne, Bool.false_eq_true, if_false]
+  have hnl : ¬ ((encPtb64Group n group ++ rest).length < n * 8) := by simp [hL]
+  simp only [hnl, Bool.false_eq_true, if_false]
+  have htake : (encPtb64Group n group ++ rest).take (n * 8) = encPtb64Group n group := by
+    rw [← hL]; simp
+  have hdrop : (encPtb64Group n group ++ rest).drop (n * 8) = rest := by
+    rw [← hL]; simp
+  rw [htake, hdrop]
+  congr 1
+  apply List.ext_getElem
+  · simp [h64]
+  · intro shot h1 h2
+    simp only [List.getElem_map, List.getElem_range]
+    have hs : shot < 64 := by simpa using h1
+    have hsl : (group[shot]).length = n := hlen _ (List.getElem_mem h2)
+    apply List.ext_getElem
+    · simp [hsl]
+    · intro bit hb1 hb2
+      simp only [List.getElem_map, List.getElem_range]
+      have hbit : bit < n := by simpa using hb1
+      -- the byte holding this bit
+      have hj : shot / 8 < 8 := by omega
+      have hbyte := flatMap8_getD (fun b => u64Bytes (group.map fun s => s.getD b false)) (fun _ => u64Bytes_length _)
+        (List.range n) bit (shot / 8) (by simpa using hbit) hj
+      have hr : (List.range n).getD bit 0 = bit := by simp [List.getD, hbit]
+      rw [hr] at hbyte
+      unfold encPtb64Group
+      rw [hbyte]
+      simp only [u64Bytes, List.getD]
+      rw [List.getElem?_map, List.getElem?_range hj]
+      simp only [Option.map_some, Option.getD_some]
+      rw [byte_bit _ (shot % 8) (by simp; omega) (by omega)]
+      -- pick the bit out of the column
+      simp only [List.getD, List.getElem?_take, List.getElem?_drop]
+      have hmod : shot % 8 < 8 := by omega
+      simp only [hmod, if_true]
+      have hidx : 8 * (shot / 8) + shot % 8 = shot := by omega
+      rw [hidx, List.getElem?_map, List.getElem?_eq_getElem h2]
+      simp [List.getD, hsl, hbit, hb2]
+
+end Stim.C09
